@@ -231,7 +231,7 @@ def userdata_rule(run, f, rid):
 
 def token_rule(run, f, rid):
     run.rule(rid, "the token of a non-coroutine caller identifies the calling thread (and the call), so two threads in the same call never share a slot", floor=1, template="T5")
-    b = need(run, rid, f, LOOP + "::token")
+    b = unit(run, rid, f, LOOP + "::token")        # a `thread_token(..)` helper for the non-coroutine case is part of it
     if b is None:
         return
     du = DefUse(b)
